@@ -1092,7 +1092,7 @@ func check(t *testing.T, c Case) (v harness.Verdict) {
 var History = harness.Define(harness.Opts{
 	Name:  "history",
 	Rule:  "5-40 operations (add-chain / add-pre-chain of generated PKI chains, duplicates incl. the other root variant, sequencing of 0..all pending leaves with sub-millisecond root timestamps, get-sth, get-sth-consistency over in-range pairs incl. first=0, get-proof-by-hash for stored and unknown hashes, get-entries, get-entry-and-proof, get-roots) through the real client.LogClient (which holds the log key) against an Instance on the reference backend; then all served STHs are linked pairwise and every issued SCT is looked up by its client-computed leaf hash. Non-trivial: >= 2 STHs of different sizes and >= 1 sequenced SCT",
-	Quick: 300, Thorough: 2000,
+	Quick: 300, Thorough: 1200,
 }, gen, check)
 
 // ---- concurrent variant
@@ -1174,5 +1174,5 @@ func checkConc(t *testing.T, c Case) (v harness.Verdict) {
 var Concurrent = harness.Define(harness.Opts{
 	Name:  "concurrent",
 	Rule:  "the same operation mix split over 2-6 goroutines against one Instance while a sequencer goroutine integrates batches; responses judged as in `history` except that an STH must equal some root the backend published during the call; the race detector is on. Non-trivial: at least one SCT issued",
-	Quick: 60, Thorough: 600, Crashy: true,
+	Quick: 60, Thorough: 300, Crashy: true,
 }, genConc, checkConc)
